@@ -487,13 +487,20 @@ def evalShort (env : Env) : List ShortItem → CallArgs
 /-- the arguments `_func_` receives from the generated wrapper -/
 def forward (s : ArgSpec) (env : Env) : CallArgs := evalShort env (shortItems s)
 
+/-- `_call_` is `wrapped(func, *args, **kwargs)` of context_managers.py: unless `func` is positional-only there, a
+forwarded keyword called `func` collides with it ("got multiple values for argument 'func'") -/
+def callerClash (fa : CallArgs) : Bool := !callerFuncPosOnly && hasKey fa.kw callerFuncParam
+
 /-- a call of the generated wrapper: bind by the copied signature; `_call_(_func_, …)` — hidden by a parameter
-of that name the callee is an argument value, modelled as not callable — forwards to the original, which binds
-again -/
+of that name the callee is an argument value, modelled as not callable — binds the caller's own
+`(func, *args, **kwargs)` and forwards to the original, which binds again -/
 def callThrough (s : ArgSpec) (ca : CallArgs) : Except PyErr Env :=
   match bind (wrapperSpec s) ca with
   | .error e => .error e
-  | .ok env => if shadows s then .error .typeError else bind s (forward s env)
+  | .ok env =>
+    if shadows s then .error .typeError
+    else if callerClash (forward s env) then .error .typeError
+    else bind s (forward s env)
 
 /-! ### rendering of the generated source (compared with `__source__` of the real wrapper) -/
 
